@@ -321,8 +321,10 @@ func drawNodeInit(t *rapid.T) {
 	nodeViaConf = rapid.IntRange(0, 3).Draw(t, "node_via_NewNode") == 0
 }
 
-func initNode(pn **gomavlib.Node) error {
-	if !nodeViaConf {
+func initNode(pn **gomavlib.Node) error { return initNodeVia(pn, nodeViaConf) }
+
+func initNodeVia(pn **gomavlib.Node, viaConf bool) error {
+	if !viaConf {
 		return (*pn).Initialize()
 	}
 	n := *pn
